@@ -69,9 +69,14 @@ PowXStreams == {
   Cat([i \in 1..4 |-> LE(DigitsOf(RMod)[i], 8)]) \o Cat([i \in 1..4 |-> LE(DigitsOf(Sub(RMod, One))[i], 8)]),
   Cat([i \in 1..4 |-> LE(Sub(XAbs, One), 8)]) \o Cat([i \in 1..4 |-> LE(Zero, 8)]),
   Cat([i \in 1..4 |-> LE(DigitsOf(ModN(Rnd(70), RMod))[i], 8)]) }
+DigitVal(d) == Add(Add(d[1], Mul(d[2], XAbs)), Add(Mul(d[3], Mul(XAbs, XAbs)), Mul(d[4], Mul(XAbs, Mul(XAbs, XAbs)))))
+\* base-|x| digit patterns with and without the subtraction of r, incl. a top digit above |x| (exponents >= r + |x|^4) and a zero lowest digit
+DigitFamCore == { s \in { Add(IF b = 1 THEN RMod ELSE Zero, DigitVal(<<d0, d1, Zero, d3>>)) : b \in {0, 1}, d0 \in { Zero, Sub(XAbs, One) }, d1 \in { Zero, FromNat(5) },
+                                                                                          d3 \in { One, XAbs, Add(XAbs, FromNat(5)) } } : Lt(s, Pow2(256)) }
 GtCases ==
   SetToSeq({ [op |-> "gt.exp", variant |-> v, a |-> Raw12(a), k |-> Pad(k, 32), alias |-> al, src |-> "gen"] :
              v \in {"div", "nodiv", "powx", "c"}, a \in GTBases, k \in Exps, al \in {0, 1} })
+  \o SetToSeq({ [op |-> "gt.exp", variant |-> v, a |-> Raw12(GTGen), k |-> Pad(k, 32), alias |-> 0, src |-> "gen"] : v \in {"powx", "c"}, k \in DigitFamCore })
   \o SetToSeq({ [op |-> "gt.op", which |-> w, a |-> Raw12(a), b |-> Raw12(b), alias |-> al, src |-> "gen"] :
                 w \in {"add", "negate", "double", "equal", "marshal"}, a \in GTBases, b \in GTBases, al \in {0, 1, 2} })
   \o SetToSeq({ [op |-> "gt.op", which |-> "add", a |-> Raw12(a), b |-> Raw12(a), alias |-> 3, src |-> "gen"] : a \in GTBases })
